@@ -22,7 +22,8 @@ def exec_stmt(I: Interp, st, env: Env):
     f = _STMTS.get(k)
     if f is None:
         raise Unsupported(f"statement {k} at line {st.lineno}")
-    I.V.on_stmt(I, st, env)
+    if I.V.on_stmt(I, st, env):
+        return None
     return f(I, st, env)
 
 
@@ -278,6 +279,8 @@ def s_For(I, st, env):
     ordn = loop_ordinal(I, st)
     spec = I.V.loop_spec(I.frame.qual, ordn)
     it = I.eval(st.iter, env)
+    if isinstance(it, Obj) and it.cls == "generator":
+        it = it.fields["trace"]
     if spec is None or spec.unroll:
         try:
             items = I.concrete_iter(it)
